@@ -131,6 +131,63 @@ def check_function(ck, prop, f):
     return n_reads
 
 
+def check_class(ck, prop, ci):
+    """G3: every attribute of self that the class reads is a method / property / class-level name or is assigned by the constructor
+    (own or inherited) on every normally ending path - otherwise the first read raises AttributeError"""
+    repo = ck.repo
+    mro = repo.mro(ci)
+    if any(b not in repo.classes for c in mro for b in c.bases if b not in ("object", "ABC", "Exception", "Warning", "NamedTuple")):
+        ext = True
+    else:
+        ext = False
+    defined = set()
+    for c in mro:
+        defined |= set(c.methods) | set(c.setters) | set(c.assigns)
+        for st in c.node.body:
+            if isinstance(st, ast.AnnAssign) and isinstance(st.target, ast.Name) and st.value is not None:
+                defined.add(st.target.id)          # a bare annotation (`period: int`) declares a type, it does not create the attribute
+    always, sometimes = set(), set()
+    for c in mro:
+        m = c.methods.get("__init__")
+        if m is None:
+            continue
+        try:
+            fl = flow_of(m)
+        except Exception:
+            continue
+        by_attr = {}
+        for n in fl.cfg.nodes:
+            if n.kind != "stmt":
+                continue
+            for x in ast.walk(n.stmt):
+                if isinstance(x, ast.Attribute) and isinstance(x.ctx, ast.Store) and isinstance(x.value, ast.Name) and x.value.id == "self":
+                    by_attr.setdefault(x.attr, set()).add(n)
+        for a, nodes in by_attr.items():
+            sometimes.add(a)
+            if fl.cfg.exit not in fl.cfg.reach(fl.cfg.entry, avoid=nodes):
+                always.add(a)
+    reads = {}
+    for m in list(ci.methods.values()) + list(ci.setters.values()):
+        if m.name == "__init__":
+            continue
+        for x in walk_local(m.node):
+            if isinstance(x, ast.Attribute) and isinstance(x.ctx, ast.Load) and isinstance(x.value, ast.Name) and x.value.id == "self" and not x.attr.startswith("__"):
+                reads.setdefault(x.attr, (m, x))
+    n = 0
+    for a, (m, x) in sorted(reads.items()):
+        if a in defined:
+            continue
+        n += 1
+        if a in always:
+            ck.holds(f"{prop}.G3", m, f"self.{a}", "initialised by the constructor on every path")
+        elif ext and a not in sometimes:
+            continue                      # may come from a base class outside the package
+        else:
+            ck.violation(f"{prop}.G3", m, x, f"{ci.name}.{a} is read here but " + ("is assigned only on some paths of the constructor" if a in sometimes else
+                         "no constructor of the class (or of its bases) assigns it") + ": AttributeError on a fresh object", sink=f"{ci.name}.{a}:uninitialised")
+    return n
+
+
 def run(ck, prop, analysed):
     """analysed: {qualified name: module} of the functions the property's rules built flow graphs for"""
     repo = ck.repo
@@ -140,3 +197,12 @@ def run(ck, prop, analysed):
             n += 1
             check_function(ck, prop, f)
     ck.count("functions under the generic well-formedness rules", n)
+    classes = {}
+    for q, mod in analysed.items():
+        for f in [x for x in repo.funcs.get(q, []) if x.module == mod][:1]:
+            if f.cls is not None and "/tests/" not in f.cls.module:
+                classes[(f.cls.name, f.cls.module)] = f.cls
+    m = 0
+    for key in sorted(classes):
+        m += check_class(ck, prop, classes[key])
+    ck.count("attribute reads under the definite-initialisation rule", m)
